@@ -71,3 +71,55 @@ def c01_avg(ports, uops, as_dict):
         return True, f"no KeyError although {missing} not in {ports}"
     bad = any(abs(a - b) > 1e-9 for a, b in zip(got, want)) or len(got) != len(want)
     return bad, f"average_port_pressure(ports={ports}, uops={uo}) = {got}, uniform split = {want}"
+
+
+@replay
+def c01_tpsum(pp, tp):
+    from osaca.semantics import ArchSemantics
+    from osaca.parser import InstructionForm
+    k = []
+    for row, t in zip(pp, tp):
+        f = InstructionForm(mnemonic="x"); f.port_pressure = [float(Fraction(x)) for x in row]; f.throughput = float(Fraction(t)); k.append(f)
+    got = ArchSemantics.get_throughput_sum(k)
+    rows = [[Fraction(x) for x in row] for row, t in zip(pp, tp) if Fraction(t) != 0]
+    want = [float(round(sum(col), 2)) for col in zip(*rows)]
+    bad = len(got) != len(want) or any(abs(a - b) > 0.0051 for a, b in zip(got, want))
+    return bad, f"get_throughput_sum = {got}, column sums over lines with throughput = {want}"
+
+
+def _bare_semantics(isa, ports, forms=None, extra=None):
+    """real ArchSemantics/MachineModel objects around a synthetic model dict (no YAML, no cache)"""
+    from collections import defaultdict
+    from osaca.semantics import ArchSemantics, MachineModel
+    from osaca.parser import get_parser
+    mm = object.__new__(MachineModel)
+    d = defaultdict(list)
+    for f in forms or []:
+        d[f.mnemonic.upper()].append(f)
+    mm._data = {"ports": list(ports), "isa": isa, "instruction_forms": list(forms or []), "instruction_forms_dict": d,
+                "load_throughput": [], "load_throughput_default": [], "store_throughput": [], "store_throughput_default": [],
+                "load_latency": {}, "hidden_loads": False}
+    mm._data.update(extra or {})
+    im = object.__new__(MachineModel)
+    im._data = {"isa": isa, "instruction_forms": [], "instruction_forms_dict": defaultdict(list)}
+    sem = object.__new__(ArchSemantics)
+    sem._machine_model, sem._isa, sem._isa_model, sem._parser = mm, isa, im, get_parser(isa)
+    return sem, mm
+
+
+@replay
+def c01_trivial(isa, case, nports, mnemonic):
+    from osaca.parser import InstructionForm
+    from osaca.parser.register import RegisterOperand
+    from osaca.parser.memory import MemoryOperand
+    sem, mm = _bare_semantics(isa, [str(i) for i in range(nports)])
+    reg = RegisterOperand(name="rax") if isa == "x86" else RegisterOperand(prefix="x", name="1")
+    mem = MemoryOperand(base=reg)
+    ops = [reg, mem] if case in ("unknown+ld", "unknown+st") else [reg]
+    f = InstructionForm(mnemonic=None if case == "nomnemonic" else mnemonic, operands=ops)
+    f.flags = {"unknown+ld": ["performs_load"], "unknown+st": ["performs_store"]}.get(case, [])
+    f.semantic_operands = {"source": [mem] if case == "unknown+ld" else [], "destination": [mem] if case == "unknown+st" else [], "src_dst": []}
+    sem.assign_tp_lt(f)
+    ok = (f.port_pressure == [0.0] * nports and f.throughput == 0.0 and f.latency == 0.0 and f.latency_wo_load == 0.0 and f.port_uops == []
+          and (("tp_unknown" in f.flags and "lt_unknown" in f.flags) == (case != "nomnemonic")))
+    return (not ok), f"assign_tp_lt({case}, {isa}, {nports} ports, mnemonic={mnemonic!r}): pressure={f.port_pressure} tp={f.throughput} lat={f.latency} flags={f.flags}"
